@@ -95,10 +95,43 @@ func registerTime(e *Engine) {
 		e.addPC(st, c.And(c.Sge(d, e.i64(0)), c.Sle(d, e.i64(1<<50))))
 		return d
 	}
+	// under the concrete clock instants are {wall: 0, ext: seconds}: the difference of two of them
+	// is computed exactly (saturating like the library), so that code comparing elapsed time with
+	// a time-out sees the time the harness let pass (nd.AdvanceClock)
+	exact := func(e *Engine, a, b Value) (Value, bool) {
+		as, ok1 := a.(Struct)
+		bs, ok2 := b.(Struct)
+		if !ok1 || !ok2 || len(as.F) < 2 || len(bs.F) < 2 {
+			return nil, false
+		}
+		aw, ae, bw, be := as.F[0].(*smt.Term), as.F[1].(*smt.Term), bs.F[0].(*smt.Term), bs.F[1].(*smt.Term)
+		if !aw.IsConst() || !ae.IsConst() || !bw.IsConst() || !be.IsConst() || aw.Val != 0 || bw.Val != 0 {
+			return nil, false
+		}
+		d := int64(ae.Val) - int64(be.Val)
+		const lim = int64(1<<63-1) / 1000000000
+		switch {
+		case d > lim:
+			return e.i64(1<<63 - 1), true
+		case d < -lim:
+			return e.i64(1 << 63), true
+		}
+		return e.i64(uint64(d * 1000000000)), true
+	}
 	I["time.Since"] = func(e *Engine, st *State, th *Thread, args []Value, call *ssa.CallCommon) (Value, bool) {
+		if st.ConcreteClock {
+			if v, ok := exact(e, e.freshNow(st), args[0]); ok {
+				return v, true
+			}
+		}
 		return dur(e, st), true
 	}
 	I["(time.Time).Sub"] = func(e *Engine, st *State, th *Thread, args []Value, call *ssa.CallCommon) (Value, bool) {
+		if st.ConcreteClock {
+			if v, ok := exact(e, args[0], args[1]); ok {
+				return v, true
+			}
+		}
 		return dur(e, st), true
 	}
 	I["time.Sleep"] = func(e *Engine, st *State, th *Thread, args []Value, call *ssa.CallCommon) (Value, bool) {
